@@ -10,41 +10,48 @@ namespace Chess
 def fileChar (f : Nat) : Char := Char.ofNat (97 + f)
 def rankChar (r : Nat) : Char := Char.ofNat (49 + r)
 
+/-- the four-or-five character text of a non-castling move -/
+def uciPlain (f t k : Nat) : String :=
+  let s := (((String.singleton (fileChar (fileOf f))).push (rankChar (rankOf f))).push
+    (fileChar (fileOf t))).push (rankChar (rankOf t))
+  if k ≠ 0 then s.push ("  nbrq ".toList.getD k ' ') else s
+
 /-- `Position::uci` -/
 def uci (p : Position) (m : Nat) : String :=
   if moveCastling m &&& KING_CASTLING ≠ 0 then (if p.side = 0 then "e1g1" else "e8g8")
   else if moveCastling m &&& QUEEN_CASTLING ≠ 0 then (if p.side = 0 then "e1c1" else "e8c8")
-  else
-    let s := (((String.singleton (fileChar (fileOf (moveFrom m)))).push (rankChar (rankOf (moveFrom m)))).push
-      (fileChar (fileOf (moveTo m)))).push (rankChar (rankOf (moveTo m)))
-    if movePromo m ≠ 0 then s.push ("  nbrq ".toList.getD (movePromo m) ' ') else s
+  else uciPlain (moveFrom m) (moveTo m) (movePromo m)
 
-/-- `Position::parse_uci` (strings of length ≥ 4 with squares in range; a bad promotion letter throws in C++ → none) -/
-def parseUci (p : Position) (s : String) : Option Nat :=
+/-- the (from, to, promotion) a UCI move string denotes; `none` where the C++ throws (bad promotion letter)
+    or reads out of range (fewer than four characters) -/
+def parseUciSquares (s : String) : Option (Nat × Nat × Nat) :=
   match s.toList with
   | f0 :: r0 :: f1 :: r1 :: rest =>
     let fromSq := mkSquare (r0.toNat - 49) (f0.toNat - 97)
     let toSq := mkSquare (r1.toNat - 49) (f1.toNat - 97)
-    let promo : Option Nat :=
-      match rest with
-      | [] => some 0
-      | c :: _ =>
-        if c = 'n' ∨ c = 'N' then some KNIGHT
-        else if c = 'b' ∨ c = 'B' then some BISHOP
-        else if c = 'r' ∨ c = 'R' then some ROOK
-        else if c = 'q' ∨ c = 'Q' then some QUEEN
-        else none
-    match promo with
-    | none => none
-    | some k =>
-      let m := mkPromotion fromSq toSq k
-      let isK := kindOf (p.at fromSq) = KING
-      let m := if isK ∧ fromSq = 4 ∧ toSq = 6 then mkCastling KING_CASTLING else m
-      let m := if isK ∧ fromSq = 4 ∧ toSq = 2 then mkCastling QUEEN_CASTLING else m
-      let m := if isK ∧ fromSq = 60 ∧ toSq = 62 then mkCastling KING_CASTLING else m
-      let m := if isK ∧ fromSq = 60 ∧ toSq = 58 then mkCastling QUEEN_CASTLING else m
-      some m
+    match rest with
+    | [] => some (fromSq, toSq, 0)
+    | c :: _ =>
+      if c = 'n' ∨ c = 'N' then some (fromSq, toSq, KNIGHT)
+      else if c = 'b' ∨ c = 'B' then some (fromSq, toSq, BISHOP)
+      else if c = 'r' ∨ c = 'R' then some (fromSq, toSq, ROOK)
+      else if c = 'q' ∨ c = 'Q' then some (fromSq, toSq, QUEEN)
+      else none
   | _ => none
+
+/-- "king on e1/e8 moving two files" becomes the castling code (position.cpp:727-734) -/
+def castleFix (isK : Bool) (fromSq toSq m : Nat) : Nat :=
+  let m := if isK ∧ fromSq = 4 ∧ toSq = 6 then mkCastling KING_CASTLING else m
+  let m := if isK ∧ fromSq = 4 ∧ toSq = 2 then mkCastling QUEEN_CASTLING else m
+  let m := if isK ∧ fromSq = 60 ∧ toSq = 62 then mkCastling KING_CASTLING else m
+  let m := if isK ∧ fromSq = 60 ∧ toSq = 58 then mkCastling QUEEN_CASTLING else m
+  m
+
+/-- `Position::parse_uci` -/
+def parseUci (p : Position) (s : String) : Option Nat :=
+  match parseUciSquares s with
+  | none => none
+  | some (fromSq, toSq, k) => some (castleFix (kindOf (p.at fromSq) = KING) fromSq toSq (mkPromotion fromSq toSq k))
 
 -- classification ---------------------------------------------------------------------
 def moveIsQuiet (p : Position) (m : Nat) : Bool :=
